@@ -101,6 +101,10 @@ TPush(F, c, st, x) ==
       bud |-> IF ex THEN DZero
               ELSE DCeilTo(DAdd(st.bud, DScale2(DAdd(DAdd(st.sum, q), st.bud), 2 - F.p)), 48)]
 
+\* Clone (of the detector or of the adaptor): the copy has the window and the sum of the original at that moment,
+\* hence also its drift bound and exact-domain flag; afterwards each of the two is pushed / reset on its own
+RmsClone(st) == [win |-> st.win, sum |-> st.sum, bud |-> st.bud, ex |-> st.ex]
+
 \* does the int -> float conversion of this frame format round?
 ConvSlack(fmt) == IF ~IsFloat(fmt) /\ Bits(fmt) - 1 > FmtOf(FloatOf(fmt)).p THEN 3 ELSE 0
 Tol(F, c, st) ==
